@@ -7,8 +7,8 @@ CONSTANTS
   Prod = {p1, p2}
   Cons = {c1, c2}
   Cap = 2
-  NSend = 1
-  NRecv = 1
+  NSend <- S11
+  NRecv <- R11
   TwoStep = TRUE
   PhotonSend = TRUE
   Timed = TRUE
